@@ -991,6 +991,17 @@ def decide_bool(px, st, v):
                 if n is not None and n == v[3][1]:
                     px.search_bounds_used.add(a0[1][1])
                     return [(True, st)]
+    if k == 'bin' and v[1] == 'Lt' and v[3][0] == 'len' and v[2][0] == 'pos' and v[2][1][0] in ('call', 'ok'):
+        # index-from-search on a slice: Ok(i) of a binary search over s implies i < s.len()
+        c = v[2][1]
+        while c[0] == 'ok':
+            c = c[1]
+        if c[0] == 'call' and re.search(r'::binary_search(_by|_by_key)?$', c[1]) and c[2]:
+            try:
+                if px.subject_of(st, c[2][0]) == v[3][1]:
+                    return [(True, st)]
+            except Exception:
+                pass
     if k == 'bin' and v[1] in CMP:
         op, a, b = v[1], v[2], v[3]
         if a[0] == 'int' and b[0] != 'int':
